@@ -81,9 +81,16 @@ def extract(fx, b, offered_params, rep):
             return policy_of_const(("named", c["def_name"]))
         return None
     pushes = [(bb, t) for bb, t in fc.calls("Vec::push") if pol_of(t)]
-    for bb, t in pushes:
-        pol = pol_of(t)
-        rows = {}
+    events = [(bb, pol_of(t)) for bb, t in pushes]
+    # a verdict that names the policy first (`let v = if .. { Err(LIVELINESS_QOS_POLICY_ID) } ..; if let Err(id) = v { list.push(id) }`)
+    for bb, i, s in m.stmts():
+        if s.kind == "assign" and s.rv is not None and s.rv.kind == "aggregate" and s.rv.agg.get("k") == "adt":
+            for o in s.rv.ops:
+                c = o.const
+                if c and c.get("def_name") and policy_of_const(("named", c["def_name"])):
+                    events.append((bb, policy_of_const(("named", c["def_name"]))))
+    for bb, pol in events:
+        rows = table.get(pol, {})
         for sb, ce in fc.ces.items():
             if ce.true_target is None:
                 continue
@@ -119,7 +126,7 @@ def extract(fx, b, offered_params, rep):
                     fld = "<whole %s>" % ty
                 rows[(fld,)] = op
         table[pol] = rows
-    return table, derived_cmp, len(pushes)
+    return table, derived_cmp, len({(bb, pol) for bb, pol in events})
 
 
 def enum_order_tables(fx, rep):
@@ -142,17 +149,36 @@ def enum_order_tables(fx, rep):
             ret = env.env.get(0)
             i = j = None
             for ce, val in env.constraints:
-                if ce[0] == "discr" and ce[1][0] == "param" and isinstance(val, tuple) and val[0] == "in" and len(val[1]) == 1:
-                    if ce[1][1] == 1:
-                        i = d2i.get(val[1][0])
-                    elif ce[1][1] == 2:
-                        j = d2i.get(val[1][0])
+                if ce[0] != "discr":
+                    continue
+                subj = E.strip_casts(ce[1])
+                # `match (self, other)`: the scrutinee is a field of the tuple built from the two parameters
+                for _ in range(3):
+                    if subj[0] == "agg" and subj[1] == "tuple" and subj[3] and str(subj[3][0]).isdigit() and int(subj[3][0]) < len(subj[2]):
+                        rest = tuple(subj[3][1:])
+                        subj = E.strip_casts(subj[2][int(subj[3][0])])
+                        if rest:
+                            subj = E.with_path(subj, rest)
+                    elif subj[0] == "proj" and subj[1][0] == "agg":
+                        subj = ("agg", subj[1][1], subj[1][2], tuple(subj[1][3]) + tuple(subj[2]))
+                    else:
+                        break
+                if subj[0] == "param" and isinstance(val, tuple) and val[0] in ("in", "notin"):
+                    # several variants can share one arm (`A | B => ..`); `otherwise` stands for the variants not listed
+                    vs = [d2i.get(x) for x in val[1]] if val[0] == "in" else [k for dv, k in d2i.items() if dv not in val[1]]
+                    vs = [x for x in vs if x is not None]
+                    if subj[1] == 1:
+                        i = vs
+                    elif subj[1] == 2:
+                        j = vs
             if i is None or j is None or ret is None:
                 continue
             o = None
             if ret[0] == "adt" and ret[2] == "Some" and ret[3] and ret[3][0][0] == "adt":
                 o = ret[3][0][2]
-            results[(i, j)] = o
+            for ii in i:
+                for jj in j:
+                    results[(ii, jj)] = o
         for i in range(len(names)):
             for j in range(len(names)):
                 n += 1
